@@ -20,6 +20,7 @@ func init() {
 		Explanation: "Exhaustive census of every call site of a file-creating/-replacing/-removing primitive in the module (os.WriteFile, os.Create, os.OpenFile with a write flag, os.Rename, os.Truncate, os.Remove*, os.Symlink/Link, CreateTemp, renameio/maybe.WriteFile, aghrenameio.NewPendingFile, bbolt.Open). " +
 			"For each site the path argument's provenance is sliced backwards (through locals, string/path helpers, parameters to their callers, module helper returns). Decided: (D1) every site is classified; (D2) a path that derives from one of the three durable locations (configuration file, lease database, filter-list files) reaches only the atomic primitives, apart from a frozen table of whole-file removals; each durable kind keeps at least one atomic writer; " +
 			"(D3) on unix builds the aghrenameio wrappers resolve to renameio.NewPendingFile / CloseAtomicallyReplace / Cleanup; (D4) every function that obtains a pending file hands it, on every path to return, to a finaliser that always calls CloseReplace or Cleanup. " +
+			"(D5) the list parser returns exactly the scanner's read error after the scan, so a transfer that broke off cannot reach the replace step as a success. " +
 			"Not decided: crash semantics of rename/fsync on a filesystem (renameio is trusted), Windows (the package documents it as non-atomic).",
 		RuleText: "Write-primitive sites are enumerated by resolved callee over all module functions; provenance by backward SSA slice with interprocedural depth 4.",
 		Assumptions: []string{
@@ -213,6 +214,8 @@ func runC14(c *Ctx) {
 		c14Wrappers(c)
 	}
 	c14Typestate(c)
+	// a list whose transfer broke off must not look like a complete one to the replace step
+	parserReportsReadError(c, "C14-D5")
 }
 
 // osFlag returns the value of an os.O_* constant in the build being analysed
